@@ -44,6 +44,7 @@ class Ctx(object):
         self.counts = {}
         self.info = []
         self.functions = set()
+        self.errors = []
 
     # ---- recording ----------------------------------------------------------------------
     def check(self, rule, finfo, key, ok, msg='', node=None, detail=None, nontrivial=True, sample=None):
